@@ -26,12 +26,19 @@ MidCUR == UNION {{<<pp, gg, gg + j * pp + d>> :
                     j \in {r \in MidRounds(pp, gg) : r >= 1 /\ r + 2 <= TopRound(pp, gg)}, d \in {0 - 1, 0, 1}}
                  : pp \in MidPeriods, gg \in MidGeneses}
 
+\* every period up to 256 s at instants exactly on, just before and just after a round
+\* boundary (the floor of the elapsed periods is where a division can go wrong for
+\* particular periods only)
+BoundaryPeriods == 1..256
+BoundaryCUR == UNION {{<<pp, gg, gg + k * pp + d>> : k \in {1, 2, 3, 10, 1000 + Seed}, d \in {0 - 1, 0, 1}}
+                      : pp \in BoundaryPeriods, gg \in {0, 1595431050}}
+
 VARIABLE done
 SimInit == done = FALSE /\ p = 1 /\ g = 0 /\ kind = "sim" /\ arg = 0 /\ res = <<>>
 SimNext == /\ ~done
            /\ JsonSerialize("roundtime_vectors.json",
-                            [gridtor |-> GridTOR, gridcur |-> GridCUR, midtor |-> MidTOR, midcur |-> MidCUR])
+                            [gridtor |-> GridTOR, gridcur |-> GridCUR, midtor |-> MidTOR, midcur |-> MidCUR \cup BoundaryCUR])
            /\ PrintT(<<"VP", "VECTORS", ToJson([gridtor |-> Cardinality(GridTOR), gridcur |-> Cardinality(GridCUR),
-                                                midtor |-> Cardinality(MidTOR), midcur |-> Cardinality(MidCUR)])>>)
+                                                midtor |-> Cardinality(MidTOR), midcur |-> Cardinality(MidCUR \cup BoundaryCUR)])>>)
            /\ done' = TRUE /\ UNCHANGED vars
 =============================================================================
